@@ -203,6 +203,21 @@ def step (st : State) (w : List String) : State × String :=
       | .optOut, _ => some "fail:optout"
       | _, _ => some "bad-op"
     (st, r.getD "bad-op")
+  | "ttl" :: "calc" :: _ =>
+    let parseItem : String → Option TTLItem := fun t =>
+      let k := t.take 1
+      match (t.drop 1).toString.splitOn ":" with
+      | [a] => if k == "r" then a.toNat?.map TTLItem.rr else none
+      | [a, b] => do
+        let ttl ← a.toNat?
+        if k == "g" then some (.sig ttl (← b.toInt?)) else if k == "s" then some (.soa ttl (← b.toNat?)) else none
+      | _ => none
+    let r : Option String := do
+      let a ← (listOf (field w "A")).mapM parseItem
+      let n ← (listOf (field w "N")).mapM parseItem
+      let e ← (listOf (field w "E")).mapM parseItem
+      some (toString (cacheTTL a n e))
+    (st, r.getD "bad-op")
   | ["proofname", "check", q, ds] =>
     match parseBool ds with
     | some d => (st, showName (insecureProofName (parseName q) d))
